@@ -531,7 +531,7 @@ func (x *aprRun) timely(wr *aprWrite) (timely bool, ok bool) {
 	if res {
 		return false, true
 	}
-	if time.Since(wr.t0) < aprTimeout-aprMargin {
+	if time.Since(wr.t0) < aprTimeout-aprMarginNow() {
 		return true, true
 	}
 	return false, x.expire(wr, true)
@@ -616,6 +616,17 @@ func aprDiff(a, b string) string {
 		return s[lo:hi]
 	}
 	return fmt.Sprintf("before ...%s... after ...%s...", cut(a), cut(b))
+}
+
+// aprMarginNow: how long before a write's timeout instant a call is still started as "in time": 40 ms on a quiet
+// machine, more when the harness's reference goroutine (jitter witness) has just been running late - being careful
+// only turns an in-time verdict into a late one (an `expire` is inserted), it never decides a verdict
+func aprMarginNow() time.Duration {
+	m := aprMargin + 2*h.Lateness(time.Now().Add(-100*time.Millisecond), time.Now())
+	if m > 80*time.Millisecond {
+		m = 80 * time.Millisecond
+	}
+	return m
 }
 
 func aprErr(approve bool) model.ErrorType {
@@ -884,7 +895,7 @@ func (x *aprRun) exec(op string) bool {
 		}
 		intime := false
 		if !resolved {
-			if time.Since(wr.t0) < aprTimeout-aprMargin {
+			if time.Since(wr.t0) < aprTimeout-aprMarginNow() {
 				intime = true
 			} else {
 				if !x.expire(wr, true) {
@@ -1647,6 +1658,7 @@ func TestApproval(t *testing.T) {
 	defer r.Write()
 	defer hbtGuard(r, "C12")()
 	defer hbtWatchdog("TestApproval", time.Duration(h.Scale(6, 25))*time.Minute)()
+	h.JitterStart()
 	h.InstallYield()
 
 	var mergeMu sync.Mutex
@@ -1687,7 +1699,8 @@ func TestApproval(t *testing.T) {
 	}
 	runTwice := func(d *h.Driver, ops []string) *aprResult {
 		res := runAprHistory(d, ops)
-		if res.abandoned != "" && res.abandoned != "no-yield-point" {
+		for try := 1; try < 3 && res.abandoned != "" && res.abandoned != "no-yield-point"; try++ {
+			// a stall hit a call that had been started in time: nothing was decided; again in a fresh world
 			infoMu.Lock()
 			abandoned[res.abandoned]++
 			infoMu.Unlock()
@@ -1804,7 +1817,14 @@ func TestApproval(t *testing.T) {
 	for _, v := range abandoned {
 		nAb += v
 	}
-	r.Floor("histories not abandoned for timing", r.Traces+r.MismatchN, r.Traces+r.MismatchN+nAb, 0.8)
+	jp50, jp99, jmax, jn := h.JitterStats()
+	r.Info["jitter_witness"] = fmt.Sprintf("reference goroutine with a 2 ms ticker: %d wake-ups, lateness median %v, 99th percentile %v, max %v", jn, jp50, jp99, jmax)
+	if jp99 >= aprMargin/4 {
+		// the machine did not keep time: histories given up for timing say nothing about the generator
+		r.Info["indeterminate_under_load"] = fmt.Sprintf("%d history runs were given up because a stall hit a call started in time (of %d that ended); not judged as a generator floor: reference lateness p99 %v", nAb, r.Traces+r.MismatchN, jp99)
+	} else {
+		r.Floor("histories not abandoned for timing", r.Traces+r.MismatchN, r.Traces+r.MismatchN+nAb, 0.8)
+	}
 	r.Floor("writes applied", tot.applied, tot.writes, 0.10)
 	r.Floor("writes denied", tot.denied, tot.writes, 0.05)
 	r.Floor("writes timed out", tot.timedOut, tot.writes, 0.10)
